@@ -1002,6 +1002,31 @@ class WorldA:
                     pass  # relations of circuits derived from c are re-evaluated against c as it is
         return {"status": "ok", "mutated": list(c.bases), "recheck": True}
 
+    def op_dtype_prelude(self, op: dict[str, Any]) -> dict[str, Any]:
+        """What the process did before: a small circuit compiled in a throw-away context under the
+        *other* default dtype (a program that switches ``torch.set_default_dtype`` between two
+        models).  Nothing of it may leak into later compilations."""
+        from cirkit.pipeline import PipelineContext
+
+        cur = torch.get_default_dtype()
+        other = torch.float32 if cur == torch.float64 else torch.float64
+        torch.set_default_dtype(other)
+        try:
+            sc = recipes.build({"kind": "rg", "rg": {"algo": "ff", "n": 2, "reps": 1},
+                                "input": {"type": "categorical", "k": 2, "param": "softmax"},
+                                "sp": "cp", "sum": {"act": "softmax", "init": "normal"},
+                                "nary": "same", "ni": 1, "ns": 1, "nc": 1})
+            ctx2 = PipelineContext(backend="torch", semiring=self.semiring, fold=self.fold,
+                                   optimize=self.optimize)
+            seed_rng(op["seed"])
+            cc = ctx2.compile(sc)
+            oracles.evaluate(cc, np.zeros((1, 2), dtype=np.int64))
+        except Exception as e:
+            self.tr.count(f"dtype-prelude:failed:{type(e).__name__}")
+        finally:
+            torch.set_default_dtype(cur)
+        return {"status": "ok"}
+
     def op_query(self, op: dict[str, Any]) -> dict[str, Any]:
         """A read-only marginal query on a compiled circuit (``IntegrateQuery``): nothing it does
         may change what the circuit computes, stores or lists in its state dictionary."""
